@@ -83,6 +83,16 @@ def main():
         runs = [args] if mode == "cli" else args["runs"]
         codes = []
         for r in runs:
+            if r.get("tool") == "copy":
+                # what a user does between two invocations: put another file at the same path
+                import shutil
+
+                shutil.copyfile(r["src"], r["dst"])
+                for stale in r.get("remove", []):
+                    if os.path.exists(stale):
+                        os.unlink(stale)
+                codes.append(0)
+                continue
             if r.get("cwd"):
                 os.chdir(r["cwd"])
             tool = p2a_cli if r.get("tool", "p2a") == "p2a" else asm_format_cli
